@@ -17,7 +17,7 @@ PROP = dict(
           "error cases), all alternatives; rapid unit: sizes 1-60 concentrated around the limits 25 (ties) and 50 (no ties), values from "
           "small pools (ties) or distinct reals; dist unit: UDist with 2-10 tie groups of multiplicity 1-6, every half step (ties) or whole "
           "step (no ties) of U; refself unit: DP reference vs enumeration. Non-trivial = both samples non-empty and not all values equal. "
-          "One rapid case in ten moves the exported limits MannWhitneyExactLimit/TiesExactLimit (3..60 / 3..27) for its duration; the distribution function is also queried between support points (flat); every result is re-read after all later calls of the case; with the largest pooled value replaced by +Inf and the smallest by -Inf (same order) U and all p-values must be unchanged; the first sample is mirrored in place and tested again (refilled buffer). Distinct = distinct case JSON."),
+          "One rapid case in ten moves the exported limits MannWhitneyExactLimit/TiesExactLimit (3..60 / 3..27) for its duration; with the values shifted so that the smallest is 0 and the first sample's zeros written as -0 all results are unchanged; the distribution function is also queried between support points (flat); every result is re-read after all later calls of the case; with the largest pooled value replaced by +Inf and the smallest by -Inf (same order) U and all p-values must be unchanged; the first sample is mirrored in place and tested again (refilled buffer). Distinct = distinct case JSON."),
     assumptions=["brute-force enumeration of group assignments defines the exact null distribution"],
     exhaustive_whole=False,
     units=[
